@@ -20,15 +20,17 @@ pub struct PacketConn<RW: Read + Write> {
     // write variables
     to_write: Vec<u8>,
     seq: u8,
+    // the last packet written was a full one, so a final (possibly empty) packet must follow
+    last_full: bool,
 }
 
 impl<W: Read + Write> Write for PacketConn<W> {
     fn write(&mut self, buf: &[u8]) -> io::Result<usize> {
         use std::cmp::min;
-        let left = min(buf.len(), U24_MAX - self.to_write.len());
+        let left = min(buf.len(), U24_MAX + 4 - self.to_write.len());
         self.to_write.extend(&buf[..left]);
 
-        if self.to_write.len() == U24_MAX {
+        if self.to_write.len() == U24_MAX + 4 {
             self.end_packet()?;
         }
         Ok(left)
@@ -52,6 +54,7 @@ impl<RW: Read + Write> PacketConn<RW> {
 
             to_write: vec![0, 0, 0, 0],
             seq: 0,
+            last_full: false,
             rw,
         }
     }
@@ -60,7 +63,8 @@ impl<RW: Read + Write> PacketConn<RW> {
 impl<W: Read + Write> PacketConn<W> {
     fn maybe_end_packet(&mut self) -> io::Result<()> {
         let len = self.to_write.len() - 4;
-        if len != 0 {
+        if len != 0 || self.last_full {
+            self.last_full = len == U24_MAX;
             LittleEndian::write_u24(&mut self.to_write[0..3], len as u32);
             self.to_write[3] = self.seq;
             self.seq = self.seq.wrapping_add(1);
